@@ -240,6 +240,16 @@ AccelObs(log, k) ==    \* what each accelerator operation observed, in program o
 (* what the buffers a function returns hold when it returns *)
 RetConts(r) == LET rs == {k \in DOMAIN r.log : r.log[k].k = "ret"} IN
                IF rs = {} THEN <<>> ELSE LET e == r.log[CHOOSE k \in rs : TRUE] IN [j \in DOMAIN e.vals |-> ContOf2(r.cont, e.vals[j])]
+(* run-time shape of a buffer value, where the machine knows it: an allocation (its evaluated sizes) or an argument with a descriptor *)
+ShapeOfVal(uf, orc, v) ==
+  IF v > 1000000 /\ v - 1000000 <= Len(uf) /\ uf[v - 1000000][1][1] = "alloc"
+  THEN LET s == uf[v - 1000000][1][3] IN SubSeq(s, 1, Len(s) - 1)          \* (the last entry numbers the allocation: P.allocsite = 1)
+  ELSE IF v > 900000 /\ v <= 900000 + Len(orc.desc) /\ orc.desc[v - 900000].valid = 1 THEN orc.desc[v - 900000].sizes
+  ELSE <<>>
+CopyShapesAgree(uf, orc, log) ==
+  \A k \in DOMAIN log : (log[k].k = "op" /\ log[k].n = "memref.copy") =>
+     LET x == ShapeOfVal(uf, orc, log[k].vals[1])  y == ShapeOfVal(uf, orc, log[k].vals[2]) IN x = <<>> \/ y = <<>> \/ x = y
+
 Casts(c, orc, a, b) ==
   IF b.fault # "none" THEN "B.fault:" \o b.fault
   ELSE IF AccelObs(a.log, 1) # AccelObs(b.log, 1) THEN "ConsumersReadOriginalData"
@@ -248,6 +258,7 @@ Casts(c, orc, a, b) ==
   ELSE IF c.needl1 = 1 /\ \E k \in DOMAIN b.log : IsAccelEvent(b.log[k]) /\ \E j \in DOMAIN b.log[k].ams : b.log[k].ams[j] # "L1"
        THEN "AcceleratorOperandsInL1"
   ELSE IF RetConts(a) # RetConts(b) THEN "ReturnedBuffersHoldSameData"
+  ELSE IF ~CopyShapesAgree(b.uf, orc, b.log) THEN "CopiesBetweenEqualShapes"
   ELSE "ok"
 
 (* ---- C10: the IR the compiler generates from a layout (bounds, steps, subview pointers) means the same as the layout ---- *)
